@@ -184,34 +184,34 @@ func (s *Schema) ValidateReader(r io.Reader) error {
 // ValidateData validates the given JSON data against the schema.
 func (s *Schema) ValidateData(data []byte) error {
 	var (
-		any map[string]interface{}
+		doc interface{}
 		err error
 	)
 
 	if !bytes.HasPrefix(bytes.TrimSpace(data), []byte{'{'}) {
-		err = yaml.Unmarshal(data, &any)
+		// Convert YAML straight to JSON: going through interface{} values
+		// would turn integers into float64 and lose precision.
+		data, err = yaml.YAMLToJSON(data)
 		if err != nil {
-			return fmt.Errorf("failed to YAML unmarshal data for validation: %w", err)
-		}
-		data, err = json.Marshal(any)
-		if err != nil {
-			return fmt.Errorf("failed to JSON remarshal data for validation: %w", err)
+			return fmt.Errorf("failed to convert YAML data to JSON for validation: %w", err)
 		}
 	}
 
-	if err := s.validate(schema.NewBytesLoader(data)); err != nil {
+	if err = s.validate(schema.NewBytesLoader(data)); err != nil {
 		return err
 	}
+
+	// The contents are checked the same way for both encodings.
+	if err = json.Unmarshal(data, &doc); err != nil {
+		return fmt.Errorf("failed to unmarshal data for validation: %w", err)
+	}
+	any, _ := doc.(map[string]interface{})
 
 	return s.validateContents(any)
 }
 
 // ValidateFile validates the given JSON file against the schema.
 func (s *Schema) ValidateFile(path string) error {
-	if filepath.Ext(path) == ".json" {
-		return s.validate(schema.NewReferenceLoader("file://" + path))
-	}
-
 	data, err := os.ReadFile(path)
 	if err != nil {
 		return err
